@@ -2,6 +2,7 @@ package props
 
 import (
 	"testing"
+	"time"
 
 	"pgregory.net/rapid"
 	"verifh/refmqtt"
@@ -139,6 +140,43 @@ func TestC08WholePackets(t *testing.T) {
 			"appStep": func(rt *rapid.T) {
 				h.Act("appStep")
 				h.appStep("appStep")
+			},
+			// The broker repeats an exactly-once PUBLISH which the client has
+			// recorded already (its PUBREC got lost, say) while a requester is
+			// part-way through a packet of its own: the PUBREC for the
+			// duplicate must wait for that packet to be complete.
+			"duplicateWhileWriting": func(rt *rapid.T) {
+				c := h.Current()
+				if c == nil || !c.Accepted() || c.Blackholed() || c.WritersParked() > 0 || !h.App.InCall() || !h.ReaderWaiting() {
+					rt.Skip("needs an idle accepted connection with the read routine waiting for input")
+				}
+				m := h.brokerSend(2, rapid.IntRange(0, 10).Draw(rt, "len"))
+				if m == nil {
+					rt.Skip("no message")
+				}
+				h.appStep("the exactly-once message")
+				h.appStep("PUBREC and marker")
+				if h.Current() != c || !h.ReaderWaiting() || c.WritersParked() > 0 {
+					return // something armed earlier struck meanwhile
+				}
+				d := rapid.IntRange(1, 8).Draw(rt, "parkAt")
+				h.armWrite(d, sim.WPark)
+				w := h.pub(0, false)
+				if c.WritersParked() == 0 {
+					return
+				}
+				var dup []byte
+				h.WithLock(func() { dup = h.Broker.PublishBytes(m, c.N) })
+				h.Act("the broker repeats %#04x while a Publish is %d bytes into its packet", m.ID, d)
+				c.Send(dup)
+				h.PollQuiet(2*time.Millisecond, func() bool { return false })
+				h.Act("releaseWrite")
+				for c.ReleaseWrite() {
+				}
+				h.SettleCall(w)
+				h.settleInbound()
+				overlap = true
+				h.label("duplicate-exactly-once-publish-while-a-requester-writes")
 			},
 			// the connection is lost; on the next one a write gives up inside
 			// the retransmission of the pending transfers, after which the
